@@ -253,8 +253,8 @@ def main():
             problems['undecided'].append('vacuity: ' + v)
     # bounded executable-contract search on the real crate (stand-in for code outside the verifier's reach, and the
     # source of concrete failing inputs; never counted as proof)
-    sr = search.run_search(pid) if os.environ.get('VERIF_NO_SEARCH') != '1' else {'status': 'none', 'checks': []}
-    evidence['search'] = {k: sr.get(k) for k in ('status', 'cmd', 'wall_s')}
+    sr = search.run_search(pid, scale=(5 if tier == 'thorough' else 1)) if os.environ.get('VERIF_NO_SEARCH') != '1' else {'status': 'none', 'checks': []}
+    evidence['search'] = {k: sr.get(k) for k in ('status', 'cmd', 'wall_s', 'scale')}
     evidence['search']['checks'] = [{k: c.get(k) for k in ('check', 'cases', 'failed')} for c in sr.get('checks', [])]
     if sr.get('status') in ('build-failed', 'error'):
         # the search crate uses the public API only; if it no longer builds the API changed: undecided, not an alarm
